@@ -235,7 +235,7 @@ def run_scenario(sc):
             art = None
             continue
         raise ValueError(act)
-    trace = {"id": sc["id"], "init": air, "ev": events}
+    trace = {"id": sc["id"], "mode": sc.get("mode", "hop"), "init": air, "ev": events}
     replay = {"id": sc["id"], "table": table["id"], "air": air, "actions": sc["actions"], "concrete": concrete}
     return trace, replay
 
@@ -244,7 +244,7 @@ def _worker(sc):
     try:
         return run_scenario(sc)
     except Exception:
-        return {"id": sc["id"], "init": sc["air"], "ev": [], "driver_exc": traceback.format_exc()}, None
+        return {"id": sc["id"], "mode": sc.get("mode", "hop"), "init": sc["air"], "ev": [], "driver_exc": traceback.format_exc()}, None
 
 
 def run_all(scenarios, procs=NCPU):
